@@ -19,6 +19,13 @@ func (core *JApiCore) processInclude(keyword *scanner.Lexeme) *jerr.JApiError {
 	// This directive shouldn't be among core.directives, because we simply
 	// "paste" included file content inside current file.
 
+	// The previous directive is ready to be processed. It should be done before
+	// switching to the included file, otherwise an error in the previous directive
+	// would get the include trace of the file in which it isn't located.
+	if je := core.processCurrentDirective(); je != nil {
+		return je
+	}
+
 	// INCLUDE never becomes a directive, so its ban has to be checked here.
 	if core.isBanned(directive.Include) {
 		return japiErrorForLexeme(keyword, directiveNotAllowed(directive.Include))
